@@ -44,6 +44,7 @@ def run(prog, rep, tier, repo):
     d5_grids(prog, rep)
     d6_rotations(prog, rep)
     d7_predicates(prog, rep)
+    d8_oblivious(prog, rep)
     return {}
 
 
@@ -51,8 +52,10 @@ def run(prog, rep, tier, repo):
 def d1_invariant(prog, rep):
     pdb = prog.pdb
     AUDITED = {M + '::empty', M + '::new', M + '::reshape_mut', M + '::t_mut'}
+    HELPERS = {}
     nsites = 0
-    for k, b in sorted(pdb.bodies.items()):
+    order = sorted(pdb.bodies.items(), key=lambda kv: (kv[0] in AUDITED, kv[0]))      # helpers first
+    for k, b in order:
         f = prog.func(k)
         derived = b.span.endswith('!') and ('serde' in k or 'Clone' in k or 'Debug' in k)
         cons = []
@@ -83,6 +86,14 @@ def d1_invariant(prog, rep):
         nsites += 1
         rep.touch(k)
         key = 'matrix-invariant:%s' % k
+        if k not in AUDITED and b.vis != 'pub' and not cons:
+            # a private helper that only touches the shape fields of its receiver: it is part of its callers.  Accept it when every
+            # caller is an audited site (the caller's own rule then sees the helper's effect, see helper_swaps below)
+            callers = [kk for kk, bb_ in pdb.bodies.items() if any(c.path == k for c in prog.func(kk).calls())]
+            if callers and all(kk in AUDITED for kk in callers):
+                HELPERS[k] = (writes, swaps)
+                rep.ok('matrix-invariant', key, 'private helper of audited site(s) %s; its effect is checked there' % [short(x) for x in callers])
+                continue
         if k not in AUDITED:
             rep.viol('matrix-invariant', key, '%s builds a Matrix / writes its shape fields directly (%d literals, %d field writes) instead of going through '
                      'Matrix::new, which validates rows*cols == len' % (k, len(cons), len(writes)), site_of(b))
@@ -105,6 +116,12 @@ def d1_invariant(prog, rep):
         elif k == M + '::t_mut':
             okd = len(writes) == 1 and writes[0].target[2] == 0 and _is_transpose_of_self(writes[0].value, me)
             oks = len(swaps) == 1 and {a[2] for a in swaps[0].args if tag(a) == 'field'} == {1, 2}
+            if not swaps:
+                # swap delegated to a private helper called on self
+                hs = [c for c in f.calls() if c.path in HELPERS and c.args and c.args[0] == me]
+                if len(hs) == 1:
+                    hw, hsw = HELPERS[hs[0].path]
+                    oks = not hw and len(hsw) == 1 and {a[2] for a in hsw[0].args if tag(a) == 'field'} == {1, 2}
             if okd and oks and not cons:
                 rep.ok('matrix-invariant', key, 't_mut(): data := transpose(data, nrows) (length preserving) and swap(nrows, ncols)')
             else:
@@ -993,3 +1010,53 @@ def d7_predicates(prog, rep):
 def _reads(t, obj):
     return any(tag(z) == 'index' and (z[1] == obj or (tag(z[1]) == 'field' and z[1][1] == obj)) for z in subterms(t)) or \
         any(tag(z) == 'call' and short(z[1]) in ('index',) and z[2] and z[2][0] == obj for z in subterms(t))
+
+
+# =============================================================================== D8
+SHAPE_OPS = ['t', 't_mut', 'reshape', 'reshape_mut', 'hcat', 'vcat', 'hrepeat', 'vrepeat', 'get_col_as_vector', 'get_row_as_vector', 'diag',
+             'to_vec', 'flatten', 'shape', 'size']
+
+
+def d8_oblivious(prog, rep):
+    """Shape operations move elements; what they do may depend on the shapes, never on the element values.  A branch on a floating-point
+    comparison or on a predicate that reads the data (is_symmetric, close_to, ...) makes the operation value dependent -- e.g. an
+    "already symmetric, nothing to do" shortcut in t_mut is wrong for matrices that are symmetric only up to the predicate's tolerance."""
+    pdb = prog.pdb
+    # predicates that read element values: bool-valued in-crate functions with a float comparison (transitively)
+    datapred = set()
+    changed = True
+    while changed:
+        changed = False
+        for k, b in pdb.bodies.items():
+            if k in datapred or b.kind == 'closure' or b.local_ty(0) != 'bool':
+                continue
+            f = prog.func(k)
+            conds = [c for gl in f.guards().values() for c, _ in gl] + list(f.return_values())
+            hit = any(tag(z) == 'bin' and len(z) > 4 and z[4] in ('f64', 'f32') and z[1] in ('Lt', 'Le', 'Gt', 'Ge', 'Eq', 'Ne') for c in conds for z in subterms(c))
+            hit = hit or any(c.path in datapred for c in f.calls())
+            if hit:
+                datapred.add(k)
+                changed = True
+    n = 0
+    keys = [M + '::' + nm for nm in SHAPE_OPS] + [U + 'transpose', U + 'row_to_col_major', U + 'col_to_row_major']
+    for k in keys:
+        f = prog.func(k)
+        if f is None:
+            continue
+        n += 1
+        rep.touch(k)
+        key = 'data-oblivious:%s' % k
+        bad = []
+        for gl in f.guards().values():
+            for c, v in gl:
+                for z in subterms(c):
+                    if tag(z) == 'bin' and len(z) > 4 and z[4] in ('f64', 'f32') and z[1] in ('Lt', 'Le', 'Gt', 'Ge', 'Eq', 'Ne'):
+                        bad.append('floating-point comparison %s' % show(z)[:60])
+                    if tag(z) == 'call' and z[1] in datapred:
+                        bad.append('data-reading predicate %s' % short(z[1]))
+        if bad:
+            rep.viol('data-oblivious', key, '%s branches on %s: a shape operation must do the same thing for every matrix of a given shape '
+                     '(a tolerant predicate is true for matrices the shortcut is wrong for)' % (short(k), sorted(set(bad))[0]), site_of(f.body))
+        else:
+            rep.ok('data-oblivious', key, 'control flow depends on shapes only')
+    rep.floor('data-oblivious', 10, 'shape operations of Matrix and the slice-level layout helpers')
